@@ -41,17 +41,24 @@ def both(wl, configs, shards=(4, 16), **kw):
     return out
 
 
-PLAN = {
-    "C18": dict(
-        level="exploration",
-        rule="cases are generated by nested enumeration (scheme x block size 1..255 x message length 0..3bs+1 x content kind x "
-             "capacity mode), exhaustive strings over a small alphabet for bs<=4, seeded random strings and hostile lengths; "
-             "a case is non-trivial unless its workload marks it trivial; distinct = distinct class keys "
-             "(configuration | scheme / block-size class / length class / content kind / capacity mode)",
-        jobs=[J("c18.grid", shards=(8, 16)), J("c18.acceptset", shards=(8, 16)), J("c18.hostile", shards=(1, 2))],
-        exhaustive_note="sub-spaces enumerated completely: (bs, len) grid; all strings over the alphabet for bs<=4 up to 2 blocks "
-                        "(method 3: 3 blocks where the count allows, see events.exhaustive_spaces)",
-        assumptions=["reference padding definitions in harness/ref/pad are right (validated against the library's own "
-                     "published 16-byte vectors and by the Pad/Unpad inverse law)"],
-    ),
-}
+PLAN = {}
+CLAIMS = {}
+
+
+def _load():
+    """every driver/plans/cNN.py defines PLAN (the plan entry of its property) and CLAIM."""
+    import glob
+    import importlib.util
+    import os
+    here = os.path.dirname(os.path.abspath(__file__))
+    for f in sorted(glob.glob(os.path.join(here, "plans", "c[0-9][0-9].py"))):
+        pid = os.path.basename(f)[:-3].upper()
+        spec = importlib.util.spec_from_file_location("plans_" + pid, f)
+        m = importlib.util.module_from_spec(spec)
+        m.J, m.both = J, both
+        spec.loader.exec_module(m)
+        PLAN[pid] = m.PLAN
+        CLAIMS[pid] = m.CLAIM
+
+
+_load()
